@@ -853,6 +853,9 @@ class Machine:
         if with_of:
             return Tup([Atom(fresh('top'), ty_from_str(tys)), Atom(fresh('of'), {'s': 'bool', 'k': 'bool'})])
         if base in ('Lt', 'Le', 'Gt', 'Ge', 'Eq', 'Ne'):
+            if isinstance(a, (Atom, Int)) and isinstance(b, (Atom, Int)):
+                nm = lambda x: x.name if isinstance(x, Atom) else repr(x)
+                return Atom('%s(%s,%s)' % (base, nm(a), nm(b)), {'s': 'bool', 'k': 'bool'})
             return Atom(fresh('cmp'), {'s': 'bool', 'k': 'bool'})
         return Atom(fresh('top'), ty_from_str(tys))
 
@@ -924,6 +927,11 @@ class Machine:
         if isinstance(a, Int) and isinstance(b, Int):
             # relation between two different symbols: a named truth value (branches on it stay consistent via `known`)
             return Atom('%s(%r,%r)' % (op, a, b), {'s': 'bool', 'k': 'bool'})
+        if isinstance(a, (Atom, Int)) and isinstance(b, (Atom, Int)):
+            # two opaque values: the comparison gets a deterministic name, so that later tests of the same relation agree
+            # and rules can see which relation a path has established
+            nm = lambda x: x.name if isinstance(x, Atom) else repr(x)
+            return Atom('%s(%s,%s)' % (op, nm(a), nm(b)), {'s': 'bool', 'k': 'bool'})
         return Atom(fresh('cmp'), {'s': 'bool', 'k': 'bool'})
 
     def bitop(self, st, op, a, b, tys):
